@@ -1015,6 +1015,15 @@ class InspectFunction(object):
             return None
         assert isinstance(z, AuthorizedObject)
         caller_fun, caller_fun_path = (z.object_val, z.resolved_path)
+        if (
+            isinstance(node.func, ast.Attribute)
+            and isinstance(node.func.value, ast.Call)
+            and isinstance(caller_fun, FunctionType)
+        ):
+            # f(...).method(...): a method called on what f returns, not a call of f with these arguments
+            # (dds.load('/p').upper() was read as dds.load with the arguments of upper). The call of f itself is a
+            # node of its own and is analysed there.
+            return None
         if not isinstance(caller_fun, FunctionType) and not inspect.isclass(caller_fun):
             raise DDSException(
                 f"Expected FunctionType or class for {caller_fun_path}, got {type(caller_fun)}",
